@@ -17,6 +17,7 @@ import (
 	"strings"
 	"sync"
 
+	"github.com/els0r/goProbe/v4/pkg/goDB/encoder/encoders"
 	"github.com/els0r/goProbe/v4/pkg/goDB/engine"
 	"verifharness/capx"
 	"verifharness/checks/c08"
@@ -47,7 +48,7 @@ func init() {
 		},
 		Variants: func(tier string) []string { return []string{"default", "race"} },
 		Run:      run,
-		Require:  []string{"live_queries", "live_queries_with_memory_rows", "twin_runs", "concurrent_cases", "live_queries_with_condition"},
+		Require:  []string{"live_queries", "live_queries_with_memory_rows", "twin_runs", "concurrent_cases", "live_queries_with_condition", "cases_with_db_only_interface"},
 	})
 }
 
@@ -99,8 +100,32 @@ func run(c *fw.Case) {
 	steps = append(steps, step{kind: "rotate", ts: ts})
 	qr := c.SubRng("queries")
 
+	// every other case the database also holds an interface that is not captured (any more): it sorts
+	// before the captured ones, has stored flows only, and takes part in `any` / listed live queries
+	dbIfaces := ifaces
+	var dbOnly gen.Block
+	if c.Idx%2 == 1 {
+		dbIfaces = append([]string{"aaa0"}, ifaces...)
+		dbOnly = gen.Block{TS: day + 60}
+		seen := map[string]bool{}
+		for k := 0; k < 1+r.Intn(5); k++ {
+			f := gen.RandFlow(r, gen.FlowOpts{V6Prob: 0.4})
+			if !seen[f.KeyString()] {
+				seen[f.KeyString()] = true
+				dbOnly.Flows = append(dbOnly.Flows, f)
+			}
+		}
+		c.Count("cases_with_db_only_interface", 1)
+	}
+
 	exec := func(name string, withLive bool) (map[string]map[int64][]gen.Flow, bool) {
 		dbPath := c.Tmp + "/db-" + name
+		if len(dbIfaces) > len(ifaces) {
+			if err := gen.WriteBlock(dbPath, "aaa0", dbOnly, encoders.EncoderTypeLZ4, 0); err != nil {
+				c.Inconclusive("writing the stored-only interface: %v", err)
+				return nil, false
+			}
+		}
 		rig, err := capx.NewRig(capx.DefaultConfig(dbPath, ifaces...), capx.Options{})
 		if err != nil {
 			c.Inconclusive("rig: %v", err)
@@ -132,7 +157,7 @@ func run(c *fw.Case) {
 				}
 				// ground truth for this moment
 				if concurrent {
-					q := genLiveQuery(qr, ifaces)
+					q := genLiveQuery(qr, dbIfaces)
 					wg.Add(1)
 					go func() {
 						defer wg.Done()
@@ -152,7 +177,7 @@ func run(c *fw.Case) {
 					rig.Source(i).WaitIdle()
 				}
 				stored := &gen.RefDB{}
-				for _, i := range ifaces {
+				for _, i := range dbIfaces {
 					m, err := capx.ReadDB(dbPath, i)
 					if err != nil {
 						continue // interface without any block yet
